@@ -95,10 +95,32 @@ def main(argv):
             with open(out, "w") as f:
                 json.dump({"property": pid, "driver": None}, f)
             return 0
+        # a driver normally takes a minute or two (quick) / up to half an hour (thorough); a library function that no
+        # longer returns would hold it for ever.  After a very generous limit the run is stopped and reported with
+        # the library frames it was in: not terminating is a failure of every clause that needs an answer.
+        import signal
+        limit = int(os.environ.get("VERIF_DRIVER_LIMIT_S", "1500" if tier == "quick" else "10800"))
+
+        class _Stuck(BaseException):
+            pass
+
+        def _alarm(signum, frame):
+            raise _Stuck()
+        signal.signal(signal.SIGALRM, _alarm)
+        signal.alarm(limit)
         try:
             res = mod.run(tier, seed)
+        except _Stuck:
+            frames = [l for l in traceback.format_exc().split("\n") if "/mingus/" in l or "drivers/" in l]
+            res = {"property": pid, "evaluations": 0, "distinct_nontrivial": 0, "rule": "stopped after %d s" % limit,
+                   "groups": {}, "samples": [], "known": [], "assumptions": [], "exhaustive": False,
+                   "failures": [{"function": "driver %s" % pid, "clause": "terminates",
+                                 "what": "the driver did not finish within %d s (a call into the library does not return?)" % limit,
+                                 "inputs": " | ".join(x.strip() for x in frames[-8:])[:2000]}]}
         except Exception:
             res = {"property": pid, "error": traceback.format_exc()}
+        finally:
+            signal.alarm(0)
         with open(out, "w") as f:
             json.dump(res, f)
         return 0
